@@ -6,7 +6,7 @@
 (* matrix and the right-hand side are derived from the definition of the basis and kept in variables.   *)
 (* All numbers are rationals in lattice units (one lattice unit = 1/LAT of the unit interval).          *)
 EXTENDS Rational, Sequences, FiniteSets
-CONSTANTS LAT, GRIDS, DATASETS, MAXD
+CONSTANTS LAT, GRIDS, DATASETS, MAXD, MAXPTS      \* MAXPTS: only tensor grids with at most that many inner points are enumerated
 VARIABLES dim, grid, data, labels, mass, stiff, rhs, keys
 vars == <<dim, grid, data, labels, mass, stiff, rhs, keys>>
 Inner(g) == 2..(Len(g) - 1)
@@ -57,6 +57,7 @@ KeyTable(G) == {<<Key(G, pq[1], pq[2]), Mass(G)[pq]>> : pq \in {x \in Points(G) 
 
 Init == /\ dim \in 1..MAXD
         /\ grid \in [1..dim -> GRIDS]
+        /\ Cardinality(Points(grid)) <= MAXPTS
         /\ \E ds \in DATASETS : /\ data = [k \in 1..Len(ds.x) |-> SubSeq(ds.x[k], 1, dim)] /\ labels = ds.y
         /\ mass = Mass(grid) /\ stiff = Stiff(grid) /\ rhs = Rhs(grid, data, labels)
         /\ keys = KeyTable(grid)
